@@ -17,7 +17,8 @@ def run(ctx, replay=None):
         f.write("CONSTANT Seed = %d\nINIT Init\nNEXT Next\nINVARIANT LabelRight OrderIsOdd\nCHECK_DEADLOCK FALSE\n" % (ctx.seed % 1000))
     ctx.tlc("MCPkcs8", cfg="MCPkcs8Seed.cfg", workers=2, timeout=600)
     sizes = "1024,2048" if ctx.quick else "1024,2048,3072,4096"
-    ctx.driver(["keys", "-in", os.path.join(d, "cases.ndjson"), "-out", ctx.path("k.obs"), "-stats", ctx.path("k.stats"), "-rsa", sizes, "-seed", ctx.seed], timeout=3600)
+    ctx.driver(["keys", "-in", os.path.join(d, "cases.ndjson"), "-out", ctx.path("k.obs"), "-stats", ctx.path("k.stats"), "-rsa", sizes, "-seed", ctx.seed,
+                "-fixtures", os.path.join(os.path.dirname(os.path.dirname(os.path.abspath(__file__))), "fixtures")], timeout=3600)
     obs = read_ndjson(ctx.path("k.obs"))
     stats = load_json(ctx.path("k.stats"))
     failed = ctx.judge("Pkcs8Judge", obs, "c17", per_shard=60)
@@ -30,6 +31,6 @@ def run(ctx, replay=None):
                    "cases are distinct by construction",
            "samples": [{k: o[k] for k in ("what", "curve", "class", "label", "accepted", "stdlib", "fromStdlib")} for o in obs[:: max(1, len(obs) // 4)][:4]],
            "by_kind": stats["by_kind"], "tlc_case_states": ctx.states,
-           "explanation": "10 curves x 18 scalar classes from the TLA+ curve table; RSA %s; 11 invalid-input classes; 16 block combinations" % sizes}
+           "explanation": "10 curves x 18 scalar classes from the TLA+ curve table; RSA %s; 11 invalid-input classes; 16 block combinations through ReadPem; artifact files of four sizes (up to 95 kB) x three keys (small, stored RSA-4096, stored RSA-8192) x hash line x key / request read back through the filesystem database" % sizes}
     return ctx.finish("exploration", cov, ["equality of keys and acceptance by the standard library are facts of the driver; the specification contributes the container grammar, "
                                            "the curve table and the case enumeration", "the zero scalar, PKCS#8 versions other than 0 and trailing bytes are not judged (the standard library accepts them too)"])
